@@ -107,7 +107,7 @@ RULE = ('(a) All ordered pairs of the known protocol numbers (369 on the '
         'construction.'
         '  (c) Schedules: every pair (55) of ten comparison calls (utility.'
         'protocol_earlier/_earlier_eq, the four context predicates, '
-        'protocol_in_range; operands 47, 107, 340, 751, 754, 755, 757, 758, PRE|1) '
+        'protocol_in_range; operands 47, 107, 340, 751, 754, 755, 757, PRE|1) '
         'made by two threads, every source line of minecraft/utility.py and '
         'ConnectionContext a scheduling point, all schedules with <= 2 '
         '(thorough 3) preemptions: each thread must get the answer the '
@@ -1922,7 +1922,7 @@ RACE_MODULES = ('minecraft.utility',
 PRE_ = 1 << 30
 RACE_OPS = [
     ('earlier', 47, 757), ('earlier', 757, 47), ('earlier_eq', 340, 340),
-    ('earlier_eq', 758, 340), ('ctx_later', 47, 107), ('ctx_later_eq', 757, 755),
+    ('earlier_eq', 755, 340), ('ctx_later', 47, 107), ('ctx_later_eq', 757, 755),
     ('ctx_earlier', PRE_ | 1, 751), ('ctx_earlier_eq', 754, 754),
     ('in_range', 340, 47, 757), ('in_range', 757, 47, 757),
 ]
